@@ -1,6 +1,7 @@
 import RotondaModel.Model.HttpServer
 import RotondaModel.Proofs.HttpServerWire
 import RotondaModel.Proofs.HttpServer
+import RotondaModel.Props.HttpRegistry
 /-!
 Property theorems of the HttpServer area: property C12 ("every HTTP request gets a well-formed response;
 bad ones get 4xx, not a crash") on the PRODUCTION server, i.e. for what a client sees on a TCP connection.
